@@ -253,7 +253,7 @@ Section Scenarios2.
        balanced (snd (fst (fst r)))).
   Proof.
     intros W Wx. pose proof W as [Ws Wc].
-    destruct x as [y|ids|avail addr extra addr_b pct|p n amt addr extra coin|p n amt addr extra|p n amt|ok es|l|l|l]; cbn [run_op2].
+    destruct x as [y|ids|avail addr extra addr_b pct|p n amt addr extra coin|p n amt addr extra|p n amt|ok es|l|l| |l]; cbn [run_op2].
     - (* old operations *)
       pose proof (run_op_spec utxos WU cfg y s o W Wx) as H. cbn zeta in H.
       destruct (run_op utxos y s o) as [[res s'] tx]. cbn [fst snd] in *. destruct H as [H1 [H2 H3]].
@@ -311,6 +311,12 @@ Section Scenarios2.
       apply wrap_spec; [|intros; discriminate]. split; [|apply pure_op_nobool].
       apply pure_op_wf; [exact W|]. intros s'. destruct (set_withdrawals _) as [ws| | |]; cbn [bind]; try discriminate.
       intros E'. injection E' as <-. apply (WF_fields cfg s); auto.
+    - (* remove_mint_builder *)
+      apply wrap_spec; [|intros; discriminate]. split; [|apply pure_op_nobool].
+      apply pure_op_wf; [exact W|]. intros s' E'. injection E' as <-.
+      destruct W as [Wst Wcf]. split; [|exact Wcf].
+      unfold state_wf, state_wfb in *. cbn [s_inputs s_outputs s_mint set_s_mint].
+      apply andb_true_iff in Wst. destruct Wst as [Wio _]. rewrite Wio. reflexivity.
     - (* proposals with identities *)
       apply wrap_spec; [|intros; discriminate]. split; [|apply pure_op_nobool].
       apply pure_op_wf; [exact W|]. intros s' E'. injection E' as <-. apply (WF_fields cfg s); auto.
